@@ -184,13 +184,13 @@ Section CancelStrict.
 
   Theorem exec_file_cancel fuel sts ms : cancel_adm k (exec_file t fl cfg glob regexes find call fuel sts ms).
   Proof.
-    apply (Phi_exec_file t fl cfg glob regexes find call (fun A m => cancel_adm k m)).
+    apply (Phi_exec_file t fl cfg glob regexes find call (fun A m => cancel_adm k m)) with (good_ctx := fun _ => True); [..|exact (fun _ => I)].
     - intros A a. split; [apply cancel_ok_ret|apply errs_ok_ret].
     - intros A B m f [H1 H2] Hf. split; [apply cancel_ok_bind; [exact H1|intros a; apply Hf]|apply errs_ok_bind; [exact H2|intros a; apply Hf]].
     - intros A e Hb. split; [apply pindep_cancel_ok, pindep_fail|apply errs_ok_fail, Hb].
     - intros A x. split; [apply pindep_cancel_ok, pindep_panic|apply errs_ok_noerr; intros; discriminate].
     - intros A. split; [apply pindep_cancel_ok, pindep_oof|apply errs_ok_noerr; intros; discriminate].
-    - intros A c m [H1 H2]. split; [apply cancel_ok_ctx, H1|apply errs_ok_ctx, H2].
+    - intros A c m _ [H1 H2]. split; [apply cancel_ok_ctx, H1|apply errs_ok_ctx, H2].
     - split; [apply pindep_cancel_ok, pindep_get|apply errs_ok_noerr; intros; discriminate].
     - intros l. apply adm_of_pindep; [prim_pindep|prim_errs].
     - intros l. apply adm_of_pindep; [prim_pindep|prim_errs].
@@ -231,14 +231,16 @@ Section CancelLazy.
 
   Theorem lexec_file_cancel fuel ms : cancel_adm k (lexec_file t fl cfg glob regexes find call fuel ms).
   Proof.
-    apply (Phi_lexec_file t fl cfg glob regexes find call (fun A m => cancel_adm k m)).
+    apply (Phi_lexec_file t fl cfg glob regexes find call (fun A m => cancel_adm k m)) with (good_ctx := fun _ => True).
     - intros A a. split; [apply cancel_ok_ret|apply errs_ok_ret].
     - intros A B m f [H1 H2] Hf. split; [apply cancel_ok_bind; [exact H1|intros a; apply Hf]|apply errs_ok_bind; [exact H2|intros a; apply Hf]].
     - intros A e Hb. split; [apply pindep_cancel_ok, pindep_fail|apply errs_ok_fail, Hb].
-    - intros A c e Hb. apply ladm_of_pindep; [intros s p; reflexivity|]. intros s e' H. inversion H; subst. apply cancel_shape_in, Hb.
+    - intros A c1 c2 e Hb. apply ladm_of_pindep; [intros s p; reflexivity|]. intros s e' H. inversion H; subst. apply cancel_shape_in, Hb.
     - intros A x. split; [apply pindep_cancel_ok, pindep_panic|apply errs_ok_noerr; intros; discriminate].
     - intros A. split; [apply pindep_cancel_ok, pindep_oof|apply errs_ok_noerr; intros; discriminate].
-    - intros A c m [H1 H2]. split; [apply cancel_ok_ctx, H1|apply errs_ok_ctx, H2].
+    - exact I.
+    - intros; exact I.
+    - intros A c m _ [H1 H2]. split; [apply cancel_ok_ctx, H1|apply errs_ok_ctx, H2].
     - split; [apply pindep_cancel_ok, pindep_get|apply errs_ok_noerr; intros; discriminate].
     - intros l. apply ladm_of_pindep; [prim_pindep|prim_errs].
     - intros l. apply ladm_of_pindep; [prim_pindep|prim_errs].
